@@ -12,7 +12,7 @@ from mc.world import Chooser
 
 RULE = ('DEV under a virtual clock: real client vs scripted server, (period, lifetime) in {(1,3),(2,2),(0.5,1.2),(3,1)} s, horizon '
         '7 lifetimes; at every KEEPALIVE the client emits the server chooses: acknowledge now (default) / after 0.4L, 1.1L, 1.5L, '
-        '2.5L / fall silent for good; all acknowledgement patterns with <= bound deviations from "always ack now"; oracle: a '
+        '2.5L / fall silent for good; a second family in which the server additionally sends its own respond-flagged KEEPALIVE every 0.7L (they count as receptions); all acknowledgement patterns with <= bound deviations from "always ack now"; oracle: a '
         'respond-flagged KEEPALIVE at every multiple of the period until the first timeout, on_keepalive_timeout never invoked while '
         'the silence before it is clearly shorter than L, invoked by the end of every silence longer than 2L. Echo part: both real '
         'endpoints receive KEEPALIVE(respond x data x position) at several points of a scenario; non-trivial = pattern with at least '
@@ -31,13 +31,21 @@ def bounds(tier):
             'deviation_bound': 3 if tier == 'quick' else 4, 'links': ['tcp', 'msg']}
 
 
-def run_pattern(period, life, flavour, prefix):
+def run_pattern(period, life, flavour, prefix, beat=None):
     ch = Chooser(prefix)
     s = Solo('client', flavour, keep_alive_period=timedelta(seconds=period), max_lifetime_period=timedelta(seconds=life))
     try:
         w, loop = s.w, s.w.loop
         horizon = 7 * life
         pending = []
+        if beat:
+            # the server also proves liveness with its own respond-flagged KEEPALIVEs (every `beat` lifetimes)
+            t_b = beat * life
+            while t_b <= horizon:
+                pending.append((t_b, b'SRV'))
+                t_b += beat * life
+        echoes = []
+        srv_delivered = [0]
         silent = False
         seen = len(s.log)
         sends, recvs, timeouts = [], [], []
@@ -59,12 +67,18 @@ def run_pattern(period, life, flavour, prefix):
             w.logev(('t', round(loop.time(), 6)))
             while pending and pending[0][0] <= t + 1e-12:
                 _, data = pending.pop(0)
+                if silent and data == b'SRV':
+                    continue
                 recvs.append(loop.time())
-                s.peer(R.enc_keepalive(False, data))
+                if data == b'SRV':
+                    srv_delivered[0] += 1
+                s.peer(R.enc_keepalive(data == b'SRV', data))
             w.run_q()
             s.out.pending.clear()
             s.out.msgs.clear()
             for ev in s.log[seen:]:
+                if ev[0] == 'tx' and ev[1] == s.ep and ev[2].type == R.KEEPALIVE and not (ev[2].flags & R.F_RESPOND):
+                    echoes.append(bytes(ev[2].data or b''))
                 if ev[0] == 'tx' and ev[1] == s.ep and ev[2].type == R.KEEPALIVE and (ev[2].flags & R.F_RESPOND):
                     sends.append(loop.time())
                     if not silent:
@@ -78,6 +92,8 @@ def run_pattern(period, life, flavour, prefix):
                 elif ev[0] == 'api' and ev[3] == 'on_keepalive_timeout':
                     timeouts.append(loop.time())
             seen = len(s.log)
+        run_pattern.last_echoes = echoes
+        run_pattern.last_srv = srv_delivered[0]
         return ch, sends, recvs, timeouts, horizon
     finally:
         s.teardown()
@@ -124,22 +140,28 @@ def judge(period, life, sends, recvs, timeouts, horizon):
     return out
 
 
-def explore(period, life, flavour, bound, part, shard):
+def explore(period, life, flavour, bound, part, shard, beat=None):
     k, K = shard
     counter = [0]
 
     def rec(prefix, used, top):
         try:
             arm_watchdog(30)
-            ch, sends, recvs, timeouts, horizon = run_pattern(period, life, flavour, prefix)
+            ch, sends, recvs, timeouts, horizon = run_pattern(period, life, flavour, prefix, beat)
             v = judge(period, life, sends, recvs, timeouts, horizon)
+            if beat:
+                v = [(r, sg + ' | server-beat', d) for r, sg, d in v]
+                n_echo = sum(1 for e in run_pattern.last_echoes if e == b'SRV')
+                if not timeouts and n_echo != run_pattern.last_srv:
+                    v.append(('C15.echo', 'C15.echo | server-beat | %s' % ('missing' if n_echo < run_pattern.last_srv else 'extra'),
+                              '%d respond-flagged server KEEPALIVEs delivered, %d echoed' % (run_pattern.last_srv, n_echo)))
         except (Livelock, Watchdog) as e:
             ch, v, sends, recvs, timeouts = Chooser(prefix), [('termination', 'termination | C15 | %s' % type(e).__name__, str(e))], [], [], []
         finally:
             disarm_watchdog()
         counter[0] += 1
         if counter[0] % 100 == 1:
-            ch2, s2, r2, t2, _ = run_pattern(period, life, flavour, ch.taken)
+            ch2, s2, r2, t2, _ = run_pattern(period, life, flavour, ch.taken, beat)
             if (s2, r2, t2) != (sends, recvs, timeouts):
                 raise HarnessError('non-deterministic keepalive replay')
             part.determinism_checks += 1
@@ -153,7 +175,7 @@ def explore(period, life, flavour, bound, part, shard):
             if used:
                 part.nontriv((period, life, flavour, tuple(ch.taken)))
             for rule, sig, detail in v:
-                part.violate(rule, sig, detail, {'kind': 'pattern', 'period': period, 'life': life, 'flavour': flavour, 'choices': ch.spelled()})
+                part.violate(rule, sig, detail, {'kind': 'pattern', 'period': period, 'life': life, 'flavour': flavour, 'choices': ch.spelled(), 'beat': beat})
             if used == bound and len(part.samples) < 2:
                 part.sample({'period': period, 'lifetime': life, 'pattern': [c[1] for c in ch.spelled()], 'timeouts': timeouts})
         if used >= bound:
@@ -219,6 +241,9 @@ def make_units(tier):
             K = 16 if tier == 'quick' else 32
             for k in range(K):
                 units.append({'kind': 'pattern', 'period': p, 'life': L, 'flavour': flavour, 'bound': bound, 'shard': [k, K]})
+        # the server additionally sends its own respond-flagged KEEPALIVE every 0.7 lifetimes
+        for k in range(4):
+            units.append({'kind': 'pattern', 'period': p, 'life': L, 'flavour': 'tcp', 'bound': bound - 1, 'shard': [k, 4], 'beat': 0.7})
     return units
 
 
@@ -227,7 +252,7 @@ def run_unit(unit, part):
         echo_cases(part)
         part.sample({'kind': 'echo', 'respond': [False, True], 'data_lengths': [0, 1, 300], 'positions': [0, 2 ** 63 - 1]})
         return
-    explore(unit['period'], unit['life'], unit['flavour'], unit['bound'], part, tuple(unit['shard']))
+    explore(unit['period'], unit['life'], unit['flavour'], unit['bound'], part, tuple(unit['shard']), unit.get('beat'))
 
 
 def replay(rec):
@@ -238,7 +263,7 @@ def replay(rec):
         echo_cases(p)
         return rec['signature'] in p.violations
     prefix = [[c[0], c[1]] for c in w['choices']]
-    ch, sends, recvs, timeouts, horizon = run_pattern(w['period'], w['life'], w['flavour'], prefix)
+    ch, sends, recvs, timeouts, horizon = run_pattern(w['period'], w['life'], w['flavour'], prefix, w.get('beat'))
     print('pattern:', [c[1] for c in ch.spelled()])
     print('KEEPALIVE sent at', sends)
     print('KEEPALIVE received at', recvs)
